@@ -31,13 +31,13 @@ def IdOutcomeOk (r : Except Err Expr) : Prop := (∃ e, r = .ok e) ∨ r = .erro
 
 /-- **termination argument.** On a valid input every recursive call of one pass of `identify` is made on a valid
 input whose measure `(|V|, |V ∖ X|)` is strictly smaller (lexicographically). -/
-theorem step_decreases {topo : MG Name → Except Err (List Name)} (ht : TopoGood topo) {I : IdIn} (hv : Valid I)
+theorem step_decreases {topo : MG Name → Except Err (List Name)} {I : IdIn} (hv : Valid I)
     {s : Step} (h : step topo I = .ok s) :
     match s with
     | .done _ => True
     | .tail J => Valid J ∧ measureLt J.measure I.measure = true
     | .split Js _ => ∀ J ∈ Js, Valid J ∧ measureLt J.measure I.measure = true := by
-  have := step_good hv ht h
+  have := step_good hv h
   cases s <;> exact this
 
 /-- **totality of the recursion.** On a valid input `idAlg` returns an estimand or refuses; it never fails
@@ -54,7 +54,7 @@ theorem idAlg_total {topo : MG Name → Except Err (List Name)} (ht : TopoGood t
       rw [step_error hv ht hs]
       exact Or.inr rfl
     | ok s =>
-      have hg := step_good hv ht hs
+      have hg := step_good hv hs
       cases s with
       | done e => exact Or.inl ⟨e, rfl⟩
       | tail J =>
